@@ -39,6 +39,9 @@ impl MT199 {
         // Parse mandatory field 79
         let field_79 = parser.parse_field::<Field79>("79")?;
 
+        // Verify all content is consumed
+        verify_parser_complete(&parser)?;
+
         Ok(MT199 {
             field_20,
             field_21,
